@@ -198,4 +198,57 @@ PROPS = {
                      "layer_miri_obs_thread_identity_checks"],
         assumptions=COMMON_ASSUMPTIONS,
     ),
+    "C02": dict(
+        level="exploration",
+        technique="runtime monitoring: per-worker in-flight shadow recomputed from Dispatch / GuardDropBegin hook events and asserted at every Dispatch on a real multi-worker server, plus a boundary-only service-concurrency monitor; failpoints widen the dec-before-inc window",
+        level_text="A real server (accept thread, worker threads, loopback TCP/UDS) is driven through saturate / queue / release phases and concurrent-release stress; the monitor recomputes 'dispatched and not released' per worker from the ordered hook log and asserts it never exceeds the limit at any Dispatch, that nothing is dispatched while all workers are saturated, and (without hooks) that a worker thread never has more than `limit` service calls started and not ended.",
+        level_note="Soundness of the event placement is argued in DESIGN.md §5 C02 (Dispatch is logged before the send, GuardDropBegin before the decrement). No faults are injected in these runs. Limits 1..4, workers 1..3.",
+        design_ref="§5 C02",
+        engine="vh-server",
+        layers={
+            "quick": [L("hooks", "vh-server", "hooks", shards=8, extra={"n": 640}, timeout=900)],
+            "thorough": [L("hooks", "vh-server", "hooks", tier="thorough", shards=16, extra={"n": 16000}, timeout=2400)],
+        },
+        obligations=["obs_quiescent_points", "obs_saturations", "obs_dispatch_bound_checks", "obs_boundary_concurrency_checks",
+                     "obs_quiescent_with_pending_and_no_spare", "obs_failpoint_delays_fired", "obs_stress_phases", "obs_release_logged_before_next_accept_step"],
+        assumptions=COMMON_ASSUMPTIONS + ["hooks in actix-server (--cfg actix_net_verif) only add event emission, failpoint sleeps between critical sections and probes; the log mutex adds synchronisation the production build does not have (TSan layers therefore run without it)",
+                                          "Linux loopback TCP and Unix-domain sockets; epoll semantics as implemented by mio 1.0"],
+    ),
+    "C03": dict(
+        level="exploration",
+        technique="runtime monitoring: bounded-progress invariant ('pending connection AND free slot on a live worker => dispatched') evaluated at accept-quiescent points reached by a logical barrier (guard-drop completion, no-op command ping, idle snapshot, pick-up); exhaustive reference-model check of the real Counter / guard through probes; Miri on the probes",
+        level_text="'Eventually dispatched' is restated as: after the barrier that proves the accept thread and the workers have processed everything that causally precedes it, no connection may be waiting in a listener backlog while a live worker has a free slot. The harness saturates, queues and releases connections one at a time (and concurrently, with failpoints at send<->inc and dec<->wake) for every limit 1..4 x workers 1..3 and checks the rule on the idle snapshot after each step. The real Counter is also checked exhaustively against the reference rule (inc reports saturation exactly at the limit, dec reports the crossing exactly when leaving it).",
+        level_note="The decision is made in logical steps (barrier reached), never by a deadline; a barrier that cannot be reached is a violation only when the process is provably quiescent. TCP accept-queue occupancy is confirmed through /proc/net/tcp before a barrier.",
+        design_ref="§5 C03",
+        engine="vh-server",
+        layers={
+            "quick": [L("hooks", "vh-server", "hooks", shards=8, extra={"n": 640}, timeout=900),
+                      L("miri", "vh-server", "miri-hooks", tier="miri", shards=4, timeout=900)],
+            "thorough": [L("hooks", "vh-server", "hooks", tier="thorough", shards=16, extra={"n": 16000}, timeout=2400),
+                         L("miri", "vh-server", "miri-hooks", tier="miri", shards=8, timeout=1500)],
+        },
+        obligations=["obs_quiescent_points", "obs_saturations", "obs_releases_after_saturation", "obs_redispatch_after_release",
+                     "obs_probe_saturations", "obs_probe_notifications_expected", "obs_probe_guard_notifications", "obs_probe_two_thread_notifications",
+                     "obs_failpoint_delays_fired", "obs_stress_phases"],
+        assumptions=COMMON_ASSUMPTIONS + ["hooks in actix-server (--cfg actix_net_verif) only add event emission, failpoint sleeps between critical sections and probes; the log mutex adds synchronisation the production build does not have (TSan layers therefore run without it)",
+                                          "Linux loopback TCP and Unix-domain sockets; epoll semantics as implemented by mio 1.0"],
+    ),
+    "C04": dict(
+        level="exploration",
+        technique="runtime monitoring: window-distinctness checker over the Dispatch hook sequence of a real server, refill-on-release and available-set-coverage rules at quiescent points; exhaustive differential check of the real Availability bitset (all 512 indices, all ordered pairs) against Vec<bool>; Miri on the bitset probe",
+        level_text="While no worker is saturated any W consecutive dispatches must hit W distinct workers; at full saturation all workers must be exactly full; a slot released by one worker is refilled on that worker; when every worker has exactly one free slot the next W dispatches cover all workers. The availability bitset is exercised through a probe for every index 0..511 and every ordered pair, plus random sequences against a Vec<bool> model; index 512 must be rejected.",
+        level_note="The oracle never predicts which worker is next, only distinctness / coverage, so any rotation start is accepted. 512 real workers are not run (probe only).",
+        design_ref="§5 C04",
+        engine="vh-server",
+        layers={
+            "quick": [L("hooks", "vh-server", "hooks", shards=8, extra={"n": 640}, timeout=900),
+                      L("miri", "vh-server", "miri-hooks", tier="miri", shards=8, timeout=900)],
+            "thorough": [L("hooks", "vh-server", "hooks", tier="thorough", shards=16, extra={"n": 16000}, timeout=2400),
+                         L("miri", "vh-server", "miri-hooks", tier="miri", shards=16, timeout=1500)],
+        },
+        obligations=["obs_rr_windows_checked", "obs_rr_partial_sets_checked", "obs_saturations", "obs_redispatch_after_release",
+                     "obs_probe_single_indices", "obs_probe_index_pairs", "obs_probe_random_ops"],
+        assumptions=COMMON_ASSUMPTIONS + ["hooks in actix-server (--cfg actix_net_verif) only add event emission, failpoint sleeps between critical sections and probes; the log mutex adds synchronisation the production build does not have (TSan layers therefore run without it)",
+                                          "Linux loopback TCP and Unix-domain sockets; epoll semantics as implemented by mio 1.0"],
+    ),
 }
